@@ -43,6 +43,7 @@ class World:
         self.na.add_node(self.remote2)
         self.nb.add_node(self.local)
         self.to_node2 = []
+        self.latency = self.remaining = 0.2        # per hop: a request/response pair takes 0.4 s
         self.nscribble = 0
         self.node2_noise = True
         if discipline != "inline":
@@ -99,6 +100,20 @@ class World:
 
     def _hook(self, kind, obj):
         # the waiting client lets "the other thread" run: deliver everything that is parked, in order
+        if self.discipline == "slow":
+            # every frame takes self.latency seconds to arrive; a waiter that gives up earlier gets nothing yet
+            t = sx.env().wait_timeout
+            budget = t
+            while self.parked:
+                if budget is not None and self.remaining > budget:
+                    self.remaining -= budget
+                    return
+                if budget is not None:
+                    budget -= self.remaining
+                sx.env().advance(self.remaining)
+                self.remaining = self.latency
+                self._deliver(*self.parked.pop(0))
+            return
         guard = 0
         while self.parked and guard < 50:
             guard += 1
@@ -355,6 +370,42 @@ def shared_dictionary():
     sx.reach("shared-od")
 
 
+def slow_responses():
+    """a request/response pair takes 0.4 s (another thread, a loaded gateway): with the client's RESPONSE_TIMEOUT raised to 1 s on the
+    node - the documented knob - typed transfers still round-trip"""
+    w = World("slow")
+    w.remote.sdo.RESPONSE_TIMEOUT = 1.0
+    E = sx.mod("canopen.sdo.exceptions")
+    v = sx.fresh_int("v", 0, 0xFFFFFFFF)
+    txt = sx.fresh_str("t", 9, 1, 127)
+    try:
+        w.remote.sdo[C.TYPE_INDEX[0x07]].raw = v
+        w.remote.sdo["Visible"].raw = txt
+        back = w.remote.sdo[C.TYPE_INDEX[0x07]].raw
+        tback = w.remote.sdo["Visible"].raw
+    except E.SdoError as e:
+        sx.observe("exc", C.exc_name(e))
+        sx.fail("a response inside the configured time-out was not waited for (%s)" % C.exc_name(e), "C03/slow/failed")
+        return
+    sx.prove((back == v) & (tback == txt), "round trip with slow responses", "C03/slow/value")
+    sx.reach("slow")
+
+
+def empty_after_other(discipline):
+    """an object holding the empty value is read after a longer value was written to another object"""
+    w = World(discipline)
+    w.remote.sdo["Domain"].raw = b""
+    other = sx.fresh_str("o", 9, 1, 127)
+    w.remote.sdo["Visible"].raw = other
+    got = w.remote.sdo["Domain"].raw
+    sx.observe("got", got)
+    sx.prove(len(sx.items(got)) == 0, "empty value read back after another transfer", "C03/empty-after-other/remote")
+    sx.prove(len(sx.items(w.local.sdo["Domain"].raw)) == 0 and len(sx.items(w.local.data_store[0x2103][0])) == 0,
+             "empty value held", "C03/empty-after-other/local")
+    sx.prove(w.remote.sdo["Visible"].raw == other, "other value intact", "C03/empty-after-other/other")
+    sx.reach("empty-after-other")
+
+
 def concurrent_send(k):
     """client threads of different nodes share Network.send_message: requests must not be mixed up on their way
     to the bus (scenario shared with C10)"""
@@ -379,6 +430,9 @@ def jobs(tier):
     for d in disciplines:
         out.append(dict(func="after_failed_write", params=dict(discipline=d), weight=3))
     out.append(dict(func="shared_dictionary", params={}))
+    out.append(dict(func="slow_responses", params={}))
+    for d in disciplines:
+        out.append(dict(func="empty_after_other", params=dict(discipline=d)))
     for k in (1, 2, 3):
         out.append(dict(func="stale_responses", params=dict(k=k)))
         for code in (S301.REAL32, S301.REAL64):
@@ -415,7 +469,7 @@ META = dict(
                     "NUL", "non-BMP text"],
     assumptions=["at most 2 noise injections per scenario; noise ids outside every predefined connection set"],
     stubs=["queue with delivery hook", "struct", "bytes", "io model", "logging", "Network.send_message replaced by the loopback"],
-    required_reach=["concurrent-send", "after-failed", "shared-od", "numeric-inline", "numeric-deferred", "numeric-interleaved", "access-index", "access-name", "boolean",
+    required_reach=["concurrent-send", "after-failed", "shared-od", "slow", "empty-after-other", "numeric-inline", "numeric-deferred", "numeric-interleaved", "access-index", "access-name", "boolean",
                     "real", "text", "blob", "domain-segmented", "record", "two-nodes", "stale-responses"],
     limits=dict(quick=dict(max_decisions=50000), thorough=dict(max_decisions=100000)),
     validate_every=dict(quick=7, thorough=50),
